@@ -616,10 +616,16 @@ func ParseScanCommand(cmd redcon.Command) (*Scan, error) {
 	for len(args) > 0 {
 		switch arg := strings.ToUpper(util.BytesToString(args[0])); arg {
 		case "MATCH":
+			if len(args) < 2 {
+				return nil, fmt.Errorf("%w: %s needs an argument", ErrInvalidArgument, arg)
+			}
 			s.SetMatch(util.BytesToString(args[1]))
 			args = args[2:]
 			continue
 		case "COUNT":
+			if len(args) < 2 {
+				return nil, fmt.Errorf("%w: %s needs a numerical argument", ErrInvalidArgument, arg)
+			}
 			count, err := strconv.Atoi(util.BytesToString(args[1]))
 			if err != nil {
 				return nil, err
@@ -630,6 +636,10 @@ func ParseScanCommand(cmd redcon.Command) (*Scan, error) {
 		case "RC":
 			s.SetReplica()
 			args = args[1:]
+		default:
+			// An unknown option has to be rejected. Otherwise, it is never
+			// consumed and this loop spins forever.
+			return nil, fmt.Errorf("%w: %s", ErrInvalidArgument, util.BytesToString(args[0]))
 		}
 	}
 
